@@ -1,0 +1,60 @@
+//go:build verif
+
+package npm
+
+// Verification hook (build tag "verif" only): hands the final install tree of a
+// resolution to an exported callback, so that properties about the
+// node_modules layout behind the returned graph can be checked.
+
+import "sort"
+
+// VerifTreeNode is one directory entry of the final install tree.
+type VerifTreeNode struct {
+	// Name is the directory name: the package name, or the alias under which
+	// the package was installed.
+	Name string
+	// Alias reports whether the entry was installed under an alias.
+	Alias bool
+	// Package and Version identify the installed concrete version.
+	Package string
+	Version string
+	// NodeID is the node of the returned graph this entry stands for (0 for
+	// the root, and for bundled entries that were never used).
+	NodeID int
+	// Bundled reports whether the entry was pre-seeded from a bundle.
+	Bundled bool
+	// Children are the entries of this entry's own node_modules directory,
+	// sorted by name.
+	Children []*VerifTreeNode
+}
+
+// VerifTreeHook, when set, is called at the end of every successful Resolve
+// with a deep copy of the install tree. It is called on the goroutine that
+// runs Resolve.
+var VerifTreeHook func(root *VerifTreeNode)
+
+func verifDumpTree(root *treeNode) {
+	if VerifTreeHook == nil {
+		return
+	}
+	VerifTreeHook(verifCopyTree(root, root.pkg.Name, false))
+}
+
+func verifCopyTree(n *treeNode, name string, alias bool) *VerifTreeNode {
+	out := &VerifTreeNode{
+		Name:    name,
+		Alias:   alias,
+		Package: n.pkg.Name,
+		Version: n.ver.Version,
+		NodeID:  int(n.id),
+		Bundled: n.bundled != nil,
+	}
+	for pk, c := range n.children {
+		out.Children = append(out.Children, verifCopyTree(c, pk.Name, false))
+	}
+	for a, c := range n.alias {
+		out.Children = append(out.Children, verifCopyTree(c, a, true))
+	}
+	sort.SliceStable(out.Children, func(i, j int) bool { return out.Children[i].Name < out.Children[j].Name })
+	return out
+}
